@@ -16,7 +16,7 @@ from vlib import common as C, e2e, sysrun as S
 
 PROP = "C02"
 THEOREMS = ["GitAi.Sys.blame_matches_ghost", "GitAi.Sys.rewrite_preserves_attribution", "GitAi.Sys.replay_credit_from_source",
-            "GitAi.Sys.aborted_is_identity", "GitAi.Sys.stash_roundtrip_partial", "GitAi.Sys.witness_stash_upstream_above",
+            "GitAi.Sys.aborted_is_identity", "GitAi.Sys.stash_roundtrip_partial", "GitAi.Sys.regression_stash_upstream_above",
             "GitAi.Sys.rspecRun_st"]
 
 
@@ -371,6 +371,50 @@ class Sc:
         self.check_tip("after cherry-pick")
         return f"cherry-pick:{mode}"
 
+    def t_rebase_after_unfinished(self, how):
+        """two rewriting operations composed: a rebase that does nothing (already up to date) or is
+        aborted at a conflict, more AI work, then a real rebase"""
+        rng = self.rng
+        self.base(nfiles=3)
+        p = self.files[0]
+        if how == "abort":
+            self.git("switch", "-q", "-c", "clash")
+            self.edit("human", p, where="middle", kind="replace", n=1)
+            self.commit("clash")
+            self.git("switch", "-q", "main")
+        self.git("switch", "-q", "-c", "feature")
+        if how == "abort":
+            self.edit(rng.pick(["s1", "s2"]), p, where="middle", kind="replace", n=2)
+            self.commit("feat conflicting")
+            rc = self.git("rebase", "clash")
+            if rc == 0:
+                self.model_ok = False
+                return "rebase-after-abort:no-conflict"
+            self.git("rebase", "--abort")
+            self.mrec("aborted")
+        else:
+            self.edit(rng.pick(["s1", "s2"]), self.files[1], where="middle")
+            self.commit("feat 0")
+            rc = self.git("rebase", "main")          # already up to date: nothing to do
+            self.mrec("aborted")
+        self.check_tip("after unfinished rebase")
+        # more AI work, then upstream moves and the real rebase
+        nmore = 1 + rng.below(2)
+        for i in range(nmore):
+            self.edit(rng.pick(["s1", "s2"]), self.files[1 + (i % 2)], where=rng.pick(["top", "bottom"]))
+            self.commit(f"feat more {i}")
+        self.git("switch", "-q", "main")
+        self.upstream_commits(1, "other-file")
+        self.git("switch", "-q", "feature")
+        rc = self.git("rebase", "main")
+        if rc != 0:
+            self.git("rebase", "--abort")
+            self.mrec("aborted")
+        else:
+            self.mrec("rebase", onto="main", drop=1 + nmore, news=self.news_since("main"))
+        self.check_tip("after the second rebase")
+        return f"rebase-after-{how}"
+
     def t_amend(self):
         self.base()
         self.feature_commits(1)
@@ -515,6 +559,8 @@ TEMPLATES = [
     ("switch-carry", lambda s: s.t_switch_carry("switch")), ("switch-c", lambda s: s.t_switch_carry("switch-c")),
     ("checkout-m", lambda s: s.t_switch_carry("checkout-m")),
     ("noop", lambda s: s.t_noop_ops()),
+    ("rebase-after-noop", lambda s: s.t_rebase_after_unfinished("noop")),
+    ("rebase-after-abort", lambda s: s.t_rebase_after_unfinished("abort")),
 ]
 
 
@@ -526,6 +572,8 @@ def family(tname, sc):
     up = getattr(sc, "upmode", None)
     if tname.startswith("conflict"):
         return "rebase-" + tname
+    if tname.startswith("rebase-after"):
+        return tname
     if tname.startswith("rebase-i-"):
         return "rebase-interactive"          # reorder/squash/fixup/drop change the commit mapping: always replayed
     if tname.startswith("rebase") or tname.startswith("cherry-pick"):
@@ -643,9 +691,9 @@ def phase(res, seeds, threads=16):
 
 def run(tier, seed):
     res = C.Result(PROP, tier, seed)
-    res.rule = ("end-to-end: 23 scenario templates (rebase plain/--onto/-i reorder|squash|fixup|drop, conflict continue|abort|skip, "
+    res.rule = ("end-to-end: 25 scenario templates (rebase plain/--onto/-i reorder|squash|fixup|drop, conflict continue|abort|skip, "
                 "cherry-pick single|range|-n, amend, merge --squash, reset --soft|--mixed + recommit, stash/pop with upstream "
-                "changes, switch/checkout -m carrying work, failing and dry-run operations) with randomised edits, sessions and "
+                "changes, switch/checkout -m carrying work, failing and dry-run operations, a real rebase after a no-op or aborted one) with randomised edits, sessions and "
                 "upstream change positions (other file, above, below, both); non-trivial = more than 4 executed steps")
     res.rule += ("; correspondence: for every template the model has (all but conflict resolution inside a stopped rebase and cherry-pick -n) the Lean model Model/Rewrite.lean is fed the runner's steps and the file contents "
                  "git produced for rewritten commits, and its predicted blame is compared with the binary's at every observation point")
@@ -658,7 +706,7 @@ def run(tier, seed):
         return res.finish()
     if os.path.exists(os.path.join(C.LEAN, "GitAiModel", "Props", "C02.lean")):
         C.phase_proofs(res, PROP, THEOREMS)
-    n = 69 if tier == "quick" else 1380
+    n = 75 if tier == "quick" else 1500
     phase(res, [seed * 100000 + i for i in range(n)])
     if res.broken and not res.violations:
         # a proof obligation or the correspondence no longer checks: look for a concrete failing history
